@@ -1,0 +1,182 @@
+//go:build verif && (verif_all || verif_c01 || verif_c06)
+// +build verif
+// +build verif_all verif_c01 verif_c06
+
+package gocql
+
+// Verification hooks (build tag `verif`) for C06, second round: (a) a bare Conn (as Session.dial builds it,
+// minus the handshake and the heartbeat) over a transport that the harness owns, with the REAL exec /
+// serve / recv / closeWithError running on it; (b) handles on the host pools of a Session (Close, Pick,
+// Size, HandleError, removeHost) for runs over transports whose Close() reports an error. Add-only.
+
+import (
+	"bufio"
+	"context"
+	"errors"
+	"hash/fnv"
+	"net"
+	"time"
+
+	"github.com/gocql/gocql/internal/streams"
+)
+
+// VerifC06Conn is a handle on a bare connection.
+type VerifC06Conn struct {
+	c    *Conn
+	sess *Session
+}
+
+// VerifC06Result is what one Conn.exec returned.
+type VerifC06Result struct {
+	Err      error
+	Class    string // "resp" | "ctx" | "deadline" | "timeout" | "closed" | "nostreams" | "err"
+	Stream   int    // header of the framer the caller was given
+	Op       int
+	Flags    int
+	Length   int
+	BodyHash uint32 // fnv32a of the body the caller finds in its framer
+}
+
+// VerifC06NewConn builds the Conn literal of Session.dialWithoutObserver over nc (no STARTUP handshake, no
+// heartbeat) and starts its receive loop. coalesce > 0 selects the coalescing writer. onError is the
+// connection's error handler.
+func VerifC06NewConn(nc net.Conn, proto int, coalesce, timeout time.Duration, onError func(err error, closed bool)) *VerifC06Conn {
+	sess := &Session{logger: nopLogger{}}
+	sess.nodeEvents = newEventDebouncer("verifNode", func([]frame) {}, nopLogger{})
+	sess.schemaEvents = newEventDebouncer("verifSchema", func([]frame) {}, nopLogger{})
+	ctx, cancel := context.WithCancel(context.Background())
+	c := &Conn{
+		conn:    nc,
+		r:       bufio.NewReader(nc),
+		calls:   make(map[int]*callReq),
+		version: uint8(proto),
+		addr:    "verif",
+		errorHandler: connErrorHandlerFn(func(_ *Conn, err error, closed bool) {
+			if onError != nil {
+				onError(err, closed)
+			}
+		}),
+		session: sess,
+		streams: streams.New(proto),
+		w: &deadlineContextWriter{
+			w:         nc,
+			semaphore: make(chan struct{}, 1),
+			quit:      make(chan struct{}),
+		},
+		ctx:     ctx,
+		cancel:  cancel,
+		logger:  nopLogger{},
+		timeout: timeout,
+	}
+	if coalesce > 0 {
+		c.w = newWriteCoalescer(nc, 0, coalesce, ctx.Done())
+	}
+	go c.serve(ctx)
+	return &VerifC06Conn{c: c, sess: sess}
+}
+
+// Exec runs Conn.exec with a QUERY frame carrying stmt.
+func (v *VerifC06Conn) Exec(ctx context.Context, stmt string) VerifC06Result {
+	fr, err := v.c.exec(ctx, &writeQueryFrame{statement: stmt, params: queryParams{consistency: One}}, nil)
+	res := VerifC06Result{Err: err}
+	switch {
+	case err == nil:
+		res.Class = "resp"
+		res.Stream = fr.header.stream
+		res.Op = int(fr.header.op)
+		res.Flags = int(fr.header.flags)
+		res.Length = fr.header.length
+		h := fnv.New32a()
+		h.Write(fr.buf)
+		res.BodyHash = h.Sum32()
+	case errors.Is(err, context.Canceled):
+		res.Class = "ctx"
+	case errors.Is(err, context.DeadlineExceeded):
+		res.Class = "deadline"
+	case errors.Is(err, ErrTimeoutNoResponse):
+		res.Class = "timeout"
+	case errors.Is(err, ErrConnectionClosed):
+		res.Class = "closed"
+	case errors.Is(err, ErrNoStreams):
+		res.Class = "nostreams"
+	default:
+		res.Class = "err"
+	}
+	return res
+}
+
+// Avail is Conn.AvailableStreams; Cap the number of stream ids of the protocol version.
+func (v *VerifC06Conn) Avail() int   { return v.c.AvailableStreams() }
+func (v *VerifC06Conn) Cap() int     { return v.c.streams.NumStreams }
+func (v *VerifC06Conn) Closed() bool { return v.c.Closed() }
+
+// Close is Conn.Close followed by the shutdown of the stand-in session's debouncers.
+func (v *VerifC06Conn) Close() { v.c.Close() }
+
+// Stop ends the helper goroutines of the stand-in session (call once, after Close).
+func (v *VerifC06Conn) Stop() {
+	v.sess.nodeEvents.stop()
+	v.sess.schemaEvents.stop()
+}
+
+// ---- host pools ----------------------------------------------------------------------------------------
+
+// VerifC06Pool is a handle on one hostConnPool of a session.
+type VerifC06Pool struct{ p *hostConnPool }
+
+// VerifC06Pools returns the pools registered in the session's policyConnPool keyed by connect address.
+func VerifC06Pools(s *Session) map[string]*VerifC06Pool {
+	out := map[string]*VerifC06Pool{}
+	s.pool.mu.RLock()
+	for _, p := range s.pool.hostConnPools {
+		out[p.host.ConnectAddress().String()] = &VerifC06Pool{p: p}
+	}
+	s.pool.mu.RUnlock()
+	return out
+}
+
+// Close, Pick, Size are the pool's methods; Pick reports whether a connection was returned.
+func (v *VerifC06Pool) Close()     { v.p.Close() }
+func (v *VerifC06Pool) Pick() bool { return v.p.Pick() != nil }
+func (v *VerifC06Pool) Size() int  { return v.p.Size() }
+
+// Conns is a snapshot of pool.conns.
+func (v *VerifC06Pool) Conns() []*Conn {
+	v.p.mu.RLock()
+	defer v.p.mu.RUnlock()
+	return append([]*Conn(nil), v.p.conns...)
+}
+
+// IsClosed reads pool.closed under the pool's lock.
+func (v *VerifC06Pool) IsClosed() bool {
+	v.p.mu.RLock()
+	defer v.p.mu.RUnlock()
+	return v.p.closed
+}
+
+// HandleError is hostConnPool.HandleError(conn, err, true) as a closing connection calls it.
+func (v *VerifC06Pool) HandleError(c *Conn, err error) { v.p.HandleError(c, err, true) }
+
+// Fill is hostConnPool.fill.
+func (v *VerifC06Pool) Fill() { v.p.fill() }
+
+// VerifC06RemoveHost is policyConnPool.removeHost for the pool of the given connect address (it closes the
+// pool in a goroutine of its own).
+func VerifC06RemoveHost(s *Session, addr string) bool {
+	s.pool.mu.RLock()
+	id := ""
+	found := false
+	for hid, p := range s.pool.hostConnPools {
+		if p.host.ConnectAddress().String() == addr {
+			id, found = hid, true
+		}
+	}
+	s.pool.mu.RUnlock()
+	if found {
+		s.pool.removeHost(id)
+	}
+	return found
+}
+
+// VerifC06ConnNetConn returns the transport of a connection.
+func VerifC06ConnNetConn(c *Conn) net.Conn { return c.conn }
